@@ -1,0 +1,147 @@
+//go:build verif
+
+package interp
+
+import (
+	"fmt"
+	"reflect"
+	"sort"
+	"strings"
+
+	"mvdan.cc/sh/v3/expand"
+)
+
+// Canonical snapshot of every Runner field for the external verification harness
+// (property C30, -tags verif only).  Add-only; nothing here is used by the package itself.
+
+// VerifC30RunnerFields renders every field of r (found by reflection, so a new field shows up
+// by itself) canonically: lengths and contents for maps and slices, nil/set for functions and
+// pointers, dynamic type names for interfaces, no addresses.
+func VerifC30RunnerFields(r *Runner) map[string]string {
+	out := map[string]string{}
+	v := reflect.ValueOf(r).Elem()
+	t := v.Type()
+	for i := 0; i < t.NumField(); i++ {
+		out[t.Field(i).Name] = verifC30Render(v.Field(i), 0)
+	}
+	// fields whose meaning is not visible to reflection
+	out["Env"] = verifC30Env(r.Env)
+	out["writeEnv"] = verifC30Env(r.writeEnv)
+	vars := make([]string, 0, len(r.Vars))
+	for k, vr := range r.Vars {
+		vars = append(vars, k+"="+verifC30Var(vr))
+	}
+	sort.Strings(vars)
+	out["Vars"] = fmt.Sprintf("len=%d %s", len(r.Vars), strings.Join(vars, " "))
+	same := func(a, b any) (s string) {
+		defer func() {
+			if recover() != nil {
+				s = "uncomparable"
+			}
+		}()
+		return fmt.Sprint(a == b)
+	}
+	out["stdin"] += " sameAsOrig=" + same(r.stdin, r.origStdin)
+	out["stdout"] += " sameAsOrig=" + same(r.stdout, r.origStdout)
+	out["stderr"] += " sameAsOrig=" + same(r.stderr, r.origStderr)
+	out["dirStack"] += fmt.Sprintf(" usesBootstrap=%v", cap(r.dirStack) > 0 && len(r.dirBootstrap) > 0 && &r.dirStack[:1][0] == &r.dirBootstrap[0])
+	return out
+}
+
+func verifC30Var(vr expand.Variable) string {
+	return fmt.Sprintf("%v/%v/%s/%q", vr.Set, vr.Kind, vr.Flags(), vr.String())
+}
+
+func verifC30Env(env expand.Environ) string {
+	if env == nil {
+		return "nil"
+	}
+	var items []string
+	env.Each(func(name string, vr expand.Variable) bool {
+		items = append(items, name+"="+verifC30Var(vr))
+		return true
+	})
+	sort.Strings(items)
+	return fmt.Sprintf("%T len=%d %s", env, len(items), strings.Join(items, " "))
+}
+
+func verifC30Render(v reflect.Value, depth int) string {
+	switch v.Kind() {
+	case reflect.Func, reflect.Chan, reflect.UnsafePointer:
+		if v.IsNil() {
+			return "nil"
+		}
+		return "set"
+	case reflect.Ptr:
+		if v.IsNil() {
+			return "nil"
+		}
+		return "set:" + v.Type().String()
+	case reflect.Interface:
+		if v.IsNil() {
+			return "nil"
+		}
+		return "dyn:" + v.Elem().Type().String()
+	case reflect.Map:
+		if v.IsNil() {
+			return "nilmap"
+		}
+		keys := make([]string, 0, v.Len())
+		for _, k := range v.MapKeys() {
+			keys = append(keys, fmt.Sprint(k))
+		}
+		sort.Strings(keys)
+		return fmt.Sprintf("len=%d %s", v.Len(), strings.Join(keys, " "))
+	case reflect.Slice:
+		if v.Type().Elem().Kind() == reflect.String {
+			items := make([]string, v.Len())
+			for i := range items {
+				items[i] = fmt.Sprintf("%q", v.Index(i).String())
+			}
+			return fmt.Sprintf("len=%d [%s]", v.Len(), strings.Join(items, " "))
+		}
+		return fmt.Sprintf("len=%d", v.Len())
+	case reflect.Array:
+		items := make([]string, v.Len())
+		for i := range items {
+			items[i] = verifC30Render(v.Index(i), depth+1)
+		}
+		sep := " "
+		if v.Type().Elem().Kind() == reflect.Bool {
+			sep = ""
+		}
+		return "[" + strings.Join(items, sep) + "]"
+	case reflect.Struct:
+		if depth > 3 {
+			return "struct"
+		}
+		items := make([]string, v.NumField())
+		for i := range items {
+			items[i] = v.Type().Field(i).Name + ":" + verifC30Render(v.Field(i), depth+1)
+		}
+		return "{" + strings.Join(items, " ") + "}"
+	case reflect.String:
+		return fmt.Sprintf("%q", v.String())
+	case reflect.Bool:
+		if v.Bool() {
+			return "1"
+		}
+		return "0"
+	case reflect.Int, reflect.Int8, reflect.Int16, reflect.Int32, reflect.Int64:
+		return fmt.Sprint(v.Int())
+	case reflect.Uint, reflect.Uint8, reflect.Uint16, reflect.Uint32, reflect.Uint64:
+		return fmt.Sprint(v.Uint())
+	}
+	return "kind:" + v.Kind().String()
+}
+
+// VerifC30FieldNames lists the Runner fields in declaration order (reflection), to cross-check
+// the go/ast extractor's table.
+func VerifC30FieldNames() []string {
+	t := reflect.TypeOf(Runner{})
+	out := make([]string, t.NumField())
+	for i := range out {
+		out[i] = t.Field(i).Name
+	}
+	return out
+}
